@@ -76,6 +76,15 @@ func customLeaves(fallible bool) []customLeaf {
 			Custom:    map[string]string{"PFXA→PFXB": "PFXExtOne", "string→bool": "PFXExtTwo"},
 		},
 		{
+			// regex-selected functions whose context is declared by doc comment; a second function matches the pattern
+			Name:      "extend_regex_doc_ctx",
+			Shape:     shape{Src: "PFXA", Tgt: "PFXB", Name: "extrectx", Decls: []string{base + "type PFXTab struct{ Z int }\n" + fmt.Sprintf("// goverter:context table\nfunc PFXResolveA(a PFXA, table PFXTab) %s { %s }\nfunc PFXResolveOther(a bool) %s { %s }", errRes("PFXB"), ret("0"), errRes("bool"), ret("false"))}},
+			ConvLines: []string{"extend PFXResolve.*"},
+			Custom:    map[string]string{"PFXA→PFXB": "PFXResolveA", "bool→bool": "PFXResolveOther"},
+			CtxParam:  "ctxT PFXTab",
+			MethodLines: []string{"context ctxT"},
+		},
+		{
 			Name:        "extend_underlying",
 			Shape:       shape{Src: "PFXA", Tgt: "PFXS", Name: "extund", Decls: []string{"type PFXA int\ntype PFXS string\n" + fmt.Sprintf("func PFXExt(a int) %s { %s }", errRes("string"), ret(`""`))}},
 			ConvLines:   []string{"extend PFXExt", "useUnderlyingTypeMethods"},
@@ -333,6 +342,22 @@ func fieldFuncConvs(family string, fallible bool) []*Conv {
 			"Age":   {Ignore: true},
 			"Last2": {Path: []string{"First"}, Fn: "PFXLast"},
 		}))
+	// pointer-source method, self-referential struct, a *S field mapped through a function taking *S
+	for _, f := range []string{"struct", "function", "variable"} {
+		selfDecl := "type PFXEmp struct {\n\tName string\n\tManager *PFXEmp\n}\ntype PFXCard struct {\n\tName string\n\tManagerName string\n}\n" +
+			fmt.Sprintf("func PFXNameOf(e *PFXEmp) %s { %s }\n", errRes("string"), ret(`""`))
+		cres := "*PFXCard"
+		if fallible {
+			cres = "(*PFXCard, error)"
+		}
+		out = append(out, &Conv{
+			ID: family + "/fieldfunc/selfptr/" + f, Family: family, Format: f,
+			Params: "source *PFXEmp", Results: cres, Decls: selfDecl,
+			MethodLines: []string{"map Manager ManagerName | PFXNameOf"},
+			Spec: &Spec{Pairs: map[string]*PairSpec{"PFXEmp→PFXCard": {Fields: map[string]*FieldSpec{"ManagerName": {Path: []string{"Manager"}, Fn: "PFXNameOf"}}}}},
+			Bounds: &Bounds{MaxSlice: 1, MaxMap: 1, RecDepth: 2},
+		})
+	}
 	// map ... | FUNC whose extra parameter is a context only through a *method-level* arg:context:regex
 	for _, f := range []string{"struct", "function", "variable"} {
 		cv := mk("methodctx", f, []string{"arg:context:regex ^ctx", "map ID Full | PFXLookup", "ignore Age Last2"},
